@@ -12,6 +12,12 @@ use std::io::Write;
 use std::panic::{catch_unwind, AssertUnwindSafe};
 
 fn parse(kind: &str, hex: &str) -> P {
+    if kind == "Str" {
+        // hex-encoded UTF-8 bytes; "00" alone stands for the empty string
+        let bytes: Vec<u8> = (0..hex.len() / 2).map(|i| u8::from_str_radix(&hex[2 * i..2 * i + 2], 16).unwrap()).collect();
+        let s = String::from_utf8(bytes).expect("utf8");
+        return P::Str(if s == "\0" { String::new() } else { s });
+    }
     let v = u128::from_str_radix(hex, 16).expect("hex");
     match kind {
         "Int" => P::Int(v as u32 as i32),
